@@ -112,11 +112,11 @@ CLAIMS = {
             "Theorem C15_full (Props/C15.lean): two accepted configurations whose lists mean the same sets (relation Twin, Proofs/Twins.lean: same origin patterns, same effective methods after normalisation, "
             "same effective header names after byte-lowercasing, `*` and Authorization listed in both or neither, equal scalars) satisfy Serve.serve i1 = Serve.serve i2 - the same function of debug flag, request and "
             "pre-existing header map. Twin.of_same_members / respell_requestHeaders / respell_responseHeaders / respell_methods / add_safelisted_method / symm / trans show that reordering, duplication, re-casing, method re-spelling "
-            "and dropped entries yield twins; C15_perm is the permutation corollary; C15_accept_members (via allErrs_nil_iff): configurations whose lists have the same members in any order and multiplicity are accepted or rejected together; C15_star_auth, C15_errors_perm, C15_accept_perm as before. Proof ingredients: sorted sets are canonical (SortedSet.ext_members), "
+            "and dropped entries yield twins; C15_perm is the permutation corollary; C15_accept_members (via allErrs_nil_iff): configurations whose lists have the same members in any order and multiplicity are accepted or rejected together; C15_accept_respelt / C15_respelt (relation Respelt, Proofs/Respell.lean: every entry of one list is a spelling — same byte-lowercase header name, same normalised method — of an entry of the other, or a safelisted method / response-header name): if c1 is accepted then so is c2 and the two handlers are the same function, with no hypothesis about c2 left; C15_star_auth, C15_errors_perm, C15_accept_perm as before. Proof ingredients: sorted sets are canonical (SortedSet.ext_members), "
             "the folds of validateMethods / validateRequestHeaders / validateResponseHeaders are characterised by flags-as-disjunctions and member sets (Proofs/Folds.lean), the handler reads the tree only through IsEmpty and Contains, C01_config. "
             "Tie: the `twins` suite builds a twin by permuting/duplicating entries, re-casing header names, re-spelling normalisable methods and adding safelisted names, and compares the two Go middlewares' responses on derived requests in both debug modes; "
             "the validate and serve suites tie the model's folds and handler to the code.",
-            '6/C15', 'C15_full takes both acceptances as hypotheses; C15_accept_members transfers acceptance for same-members twins (order, multiplicity), not for re-spelt entries; it also needs the C01 hypothesis that the IPv6 oracle accepts no `*`-leading literal.'),
+            '6/C15', 'C15_full takes both acceptances as hypotheses; C15_respelt discharges the second one for the transformations the property names (order, repetition, letter case of header names, normalisable method spellings, safelisted entries); both need the C01 hypothesis that the IPv6 oracle accepts no `*`-leading literal.'),
     'C16': ('proof', 'Lean 4 theorem (value-provenance invariant of the preflight buffer) + differential tie',
             "Theorems C16 / C16_fail / C16_distinct / C16_accepted (Props/C16.lean): debug off, any preflight: status is the single regenerated failure status or the configured "
             "success status (distinct for accepted configurations); with the failure status nothing but Vary changes; every header value the middleware sets is `*`, `true`, "
